@@ -73,9 +73,12 @@ Merge(rs) ==   \* rs: a non-empty sequence of rectangles (a single range or a li
      /\ merges' = merges \cup new
      /\ grid' = Blank(grid, merges \cup new)
   /\ UNCHANGED disk /\ Ev([op |-> "merge", rs |-> rs])
-Write(r, c, v) ==  \* on an anchor or outside any rectangle (writing into a placeholder is not documented)
-  /\ r \in 1..NR /\ c \in 1..NC /\ ~IsPlaceholder(r, c, merges)
-  /\ grid' = [grid EXCEPT ![r][c] = v] /\ UNCHANGED <<merges, disk>> /\ Ev([op |-> "write", r |-> r, c |-> c, v |-> v])
+\* a write lands on an anchor, outside any rectangle - or on a placeholder: "every other cell of the rectangle is a merged placeholder
+\* with no value", so the value is not kept and the cell stays what it is (that is also what the saved file shows)
+Write(r, c, v) ==
+  /\ r \in 1..NR /\ c \in 1..NC
+  /\ grid' = IF IsPlaceholder(r, c, merges) THEN grid ELSE [grid EXCEPT ![r][c] = v]
+  /\ UNCHANGED <<merges, disk>> /\ Ev([op |-> "write", r |-> r, c |-> c, v |-> v, ph |-> IsPlaceholder(r, c, merges)])
 \* d: the default written into the new cells (E = no default).  New cells that fall inside a rectangle are placeholders and stay empty
 AddRow(n, a, d) == /\ a \in 1..(NR + 1) /\ NR + n <= MaxR
                    /\ merges' = InsMerges(merges, 1, a, n) /\ grid' = Blank(InsRowsD(grid, a, n, d), merges') /\ UNCHANGED disk
